@@ -102,6 +102,16 @@ def run_models(chk: Check, pid: str):
                        "ElitistMonotone, StepRefinesFrame, Terminates")
     for cfg, law in DEVS.get(pid, []):
         chk.model(cfg, tlc.run("PopMachine.tla", cfg, workers=4, timeout=600), expect=law, note="named deviation")
+    if pid == "C09":
+        chk.model("Instance_mc.cfg", tlc.run("Instance.tla", "Instance_mc.cfg", workers=8, timeout=900),
+                  note="CallerUntouched (action property) over all call histories, also on the refusing path")
+        chk.model("Instance_writescfg.cfg", tlc.run("Instance.tla", "Instance_writescfg.cfg", workers=4, timeout=600),
+                  expect="CallerUntouched", note="named deviation: optimize() rewrites the configuration")
+    if pid == "C06":
+        chk.model("StopRule_mc.cfg", tlc.run("StopRule.tla", "StopRule_mc.cfg", workers=8, timeout=900),
+                  note="Terminates / EachRunTerminates: a valid run always reaches 'done' (no crash transition exists in the design)")
+        chk.model("Instance_mc.cfg", tlc.run("Instance.tla", "Instance_mc.cfg", workers=8, timeout=900),
+                  note="RefusedMeansNoConfig: an invalid call is refused before anything changes")
 
 
 def main_for(chk: Check, pid: str, models: bool = True):
